@@ -197,13 +197,19 @@ theorem ds_unit (cfg : Cfg) (hb : cfg.bounded = true) (flex : Bool) : DS cfg (.u
       bind_safe _ _ (taggedLoop_safe cfg hb _ (fun id idx dec h => by simp at h) k _ d) fun _ _ => by simp [Safe]
   · simp [Safe]
 
-theorem ds_records (cfg : Cfg) (hb : cfg.bounded = true) : DS cfg .records := by
+/-- the record-set reader plugged into the decoder (if any) is itself safe -/
+def RecsSafe (cfg : Cfg) : Prop := ∀ h, cfg.recs = some h → ∀ d, Safe (h d)
+
+theorem ds_records (cfg : Cfg) (hb : cfg.bounded = true) (hr : RecsSafe cfg) : DS cfg .records := by
   intro d
   simp only [decode]
-  exact bind_safe _ _ (readInt_safe 4 d) fun n d => by
-    split
-    · simp [Safe]
-    · exact bind_safe _ _ (readLen_safe cfg hb _ d) fun _ _ => by simp [Safe]
+  split
+  · rename_i h heq
+    exact hr h heq d
+  · exact bind_safe _ _ (readInt_safe 4 d) fun n d => by
+      split
+      · simp [Safe]
+      · exact bind_safe _ _ (readLen_safe cfg hb _ d) fun _ _ => by simp [Safe]
 
 theorem ds_prim (cfg : Cfg) (t : Ty) (k : Nat) (f : Bytes → Val)
     (h : ∀ d, decode cfg t d = (readN k d).bind fun bs d => .ok (f bs) d) : DS cfg t := by
@@ -214,7 +220,7 @@ theorem ds_int (cfg : Cfg) (t : Ty) (k : Nat)
   intro d; rw [h]; exact bind_safe _ _ (readInt_safe k d) fun _ _ => by simp [Safe]
 
 mutual
-theorem ds_all (cfg : Cfg) (hb : cfg.bounded = true) (t : Ty) : DS cfg t :=
+theorem ds_all (cfg : Cfg) (hb : cfg.bounded = true) (hr : RecsSafe cfg) (t : Ty) : DS cfg t :=
   match t with
   | .bool => ds_prim cfg _ 1 (fun bs => .bool (fromBE bs != 0)) (fun _ => by simp [decode])
   | .int8 => ds_int cfg _ 1 (fun _ => by simp [decode])
@@ -224,18 +230,18 @@ theorem ds_all (cfg : Cfg) (hb : cfg.bounded = true) (t : Ty) : DS cfg t :=
   | .float64 => ds_prim cfg _ 8 (fun bs => .int (fromBE bs)) (fun _ => by simp [decode])
   | .string c n => ds_string cfg hb c n
   | .bytes c n => ds_bytes cfg hb c n
-  | .array c n t => ds_array cfg hb c n t (ds_all cfg hb t)
-  | .struct flex fs ids ts => ds_struct cfg hb flex fs ids ts (ds_list cfg hb fs) (ds_list cfg hb ts)
+  | .array c n t => ds_array cfg hb c n t (ds_all cfg hb hr t)
+  | .struct flex fs ids ts => ds_struct cfg hb flex fs ids ts (ds_list cfg hb hr fs) (ds_list cfg hb hr ts)
   | .unit flex => ds_unit cfg hb flex
-  | .records => ds_records cfg hb
+  | .records => ds_records cfg hb hr
 termination_by structural t
-theorem ds_list (cfg : Cfg) (hb : cfg.bounded = true) (ts : List Ty) : ∀ t ∈ ts, DS cfg t :=
+theorem ds_list (cfg : Cfg) (hb : cfg.bounded = true) (hr : RecsSafe cfg) (ts : List Ty) : ∀ t ∈ ts, DS cfg t :=
   match ts with
   | [] => fun _ h => by simp at h
   | t :: ts => fun t' h => by
     rcases List.mem_cons.1 h with h | h
-    · exact h ▸ ds_all cfg hb t
-    · exact ds_list cfg hb ts t' h
+    · exact h ▸ ds_all cfg hb hr t
+    · exact ds_list cfg hb hr ts t' h
 termination_by structural ts
 end
 
@@ -251,19 +257,19 @@ theorem discardAll_safe (d : Dec) : Safe (discardAll d) := by
 
 /-- **C20, body.**  For every schema type, every decoder state (arbitrary bytes, arbitrary frame size): the
 bounded decoder returns a message or an error — no panic, no allocation beyond the bytes left in the frame. -/
-theorem decode_total_bounded (cfg : Cfg) (hb : cfg.bounded = true) (t : Ty) (inp : Bytes) (remain : Nat) :
-    Safe (decode cfg t ⟨inp, remain⟩) := ds_all cfg hb t ⟨inp, remain⟩
+theorem decode_total_bounded (cfg : Cfg) (hb : cfg.bounded = true) (hr : RecsSafe cfg) (t : Ty) (inp : Bytes) (remain : Nat) :
+    Safe (decode cfg t ⟨inp, remain⟩) := ds_all cfg hb hr t ⟨inp, remain⟩
 
 /-- **C20, frame.**  `ReadResponse` on an arbitrary byte stream, for every response schema: the size prefix
 (negative, huge, lying), the header tag buffer and the body cannot make it panic or balloon. -/
-theorem readResponse_total_bounded (cfg : Cfg) (hb : cfg.bounded = true) (flex : Bool) (t : Ty) (stream : Bytes) :
+theorem readResponse_total_bounded (cfg : Cfg) (hb : cfg.bounded = true) (hr : RecsSafe cfg) (flex : Bool) (t : Ty) (stream : Bytes) :
     Safe (readResponse cfg flex t stream) := by
   unfold readResponse
   refine bind_safe _ _ (readInt_safe 4 _) fun size d => ?_
   split
   · simp [hb, Safe]
   · refine bind_safe _ _ (readInt_safe 4 _) fun corr d => bind_safe _ _ ?_ fun _ d =>
-      bind_safe _ _ (ds_all cfg hb t d) fun v d => bind_safe _ _ (discardAll_safe d) fun _ _ => by simp [Safe]
+      bind_safe _ _ (ds_all cfg hb hr t d) fun v d => bind_safe _ _ (discardAll_safe d) fun _ _ => by simp [Safe]
     split
     · exact bind_safe _ _ (readUvarint_safe d) fun n d => bind_safe _ _ (tagCount_safe cfg n d hb) fun k d =>
         skipHeaderTags_safe cfg hb k d
@@ -275,7 +281,7 @@ theorem source_decoder_is_bounded : Gen.decoderCfg.bounded = true := by decide
 /-- C20 for the code as it is now -/
 theorem readResponse_total_source (flex : Bool) (t : Ty) (stream : Bytes) :
     Safe (readResponse Gen.decoderCfg flex t stream) :=
-  readResponse_total_bounded _ source_decoder_is_bounded flex t stream
+  readResponse_total_bounded _ source_decoder_is_bounded (fun h hh => by simp [Gen.decoderCfg] at hh) flex t stream
 
 /-! ### the unbounded decoder (D5, before the fix) violates the property -/
 
@@ -300,7 +306,7 @@ theorem compact_len_counterexample :
 
 /-- the same three inputs are plain errors for the bounded decoder -/
 def isError {α : Type} : Res α → Bool | .error => true | _ => false
-example : isError (readResponse ⟨true⟩ false brokersTy [0,0,0,8, 0,0,0,7, 0x7f,0xff,0xff,0xff]) = true := by decide
-example : isError (readResponse ⟨true⟩ false brokersTy [0xff,0xff,0xff,0xff, 0,0,0,7, 0,0,0,0]) = true := by decide
+example : isError (readResponse { bounded := true } false brokersTy [0,0,0,8, 0,0,0,7, 0x7f,0xff,0xff,0xff]) = true := by decide
+example : isError (readResponse { bounded := true } false brokersTy [0xff,0xff,0xff,0xff, 0,0,0,7, 0,0,0,0]) = true := by decide
 
 end KV.C20
